@@ -1,7 +1,12 @@
 import Crv.Repo
 /-!
-Lemmas about the repository model: the lookup walk, association-list updates, staging, and the
-invariant "every store that holds a document holds one that was accepted under the configured policy".
+Lemmas about the repository model: the lookup walk, association-list updates, staging, what one
+lock-protected section may do to configuration and ghost log (`Ext`), and the invariant `Inv` over all
+histories (`Op`, `step`, `run`; histories may restart the process with another signature mode):
+every store that holds a document holds one that was accepted under the policy configured at its intake;
+every stored signer certificate verified a list of that location; under `verify` whatever is loaded carries
+a signer certificate; and — along histories whose provisioning steps are safe (`ProvisionsSafe`) — a store
+with a signer certificate holds a verified list.
 -/
 namespace Crv.Repo
 open Crv Crv.Generated
@@ -157,448 +162,47 @@ theorem stage_honour_iff (m : SigMode) (d : DocA) (cands : List Signer) :
 theorem stage_fail_not_doc (m : SigMode) (hm : Bool) (cands : List Signer) :
     stage m hm .down cands = .fetchFail ∧ stage m hm .garbage cands = .parseFail := ⟨rfl, rfl⟩
 
-end Crv.Repo
 
-namespace Crv.Repo
-open Crv Crv.Generated
+/-- What a successful staging stored as signer certificate: the verifying signer, or nothing — and nothing only when the mode
+does not enforce signatures. -/
+theorem stage_ok_signer (m : SigMode) (hm : Bool) (sv : Served) (cands : List Signer) (st : Store) (d : DocA) (v : Bool)
+    (h : stage m hm sv cands = .ok st d v) :
+    (v = true ∧ st.signer = some d.signer ∧ verifies d cands = true) ∨ (v = false ∧ st.signer = none ∧ m ≠ .verify) := by
+  unfold stage at h
+  cases sv with
+  | down => simp at h
+  | garbage => simp at h
+  | doc d' =>
+    simp only at h
+    by_cases h1 : (hm && m == .none) = true
+    · simp only [h1, ↓reduceIte, StageRes.ok.injEq] at h
+      obtain ⟨rfl, rfl, rfl⟩ := h
+      simp only [Bool.and_eq_true, beq_iff_eq] at h1
+      exact Or.inr ⟨rfl, rfl, by rw [h1.2]; intro hx; cases hx⟩
+    · simp only [h1, Bool.false_eq_true, ↓reduceIte] at h
+      by_cases h2 : verifies d' cands = true
+      · simp only [h2, ↓reduceIte, StageRes.ok.injEq] at h
+        obtain ⟨rfl, rfl, rfl⟩ := h
+        exact Or.inl ⟨rfl, rfl, h2⟩
+      · simp only [h2, Bool.false_eq_true, ↓reduceIte] at h
+        by_cases h3 : (hm && m == .verifyLog) = true
+        · simp only [h3, ↓reduceIte, StageRes.ok.injEq] at h
+          obtain ⟨rfl, rfl, rfl⟩ := h
+          simp only [Bool.and_eq_true, beq_iff_eq] at h3
+          exact Or.inr ⟨rfl, rfl, by rw [h3.2]; intro hx; cases hx⟩
+        · simp [h3] at h
 
-/-! ### Invariant: stored documents were accepted under the configured policy -/
-
-/-- `d` came into force at `loc` at some point, accepted under the configured signature policy against the
-candidate signers available at that intake. -/
-def Accepted (s : State) (loc : Loc) (d : DocA) : Prop :=
-  ∃ a ∈ s.log, a.loc = loc ∧ a.doc = d ∧ acceptable s.cfg.sigMode d a.cands = true
-
-def StoreOK (s : State) (loc : Loc) (st : Store) : Prop := ∀ d, st.doc = some d → Accepted s loc d
-
-def Inv (s : State) : Prop :=
-  (∀ p ∈ s.entries, StoreOK s p.1 p.2.store ∧ (p.2.loaded = true → p.2.store.doc.isSome = true)) ∧
-  (∀ p ∈ s.disk, StoreOK s p.1 p.2)
-
-theorem accepted_mono {s s' : State} (hc : s'.cfg = s.cfg) (hl : ∀ a ∈ s.log, a ∈ s'.log) {loc : Loc} {d : DocA}
-    (h : Accepted s loc d) : Accepted s' loc d := by
-  obtain ⟨a, ha, h1, h2, h3⟩ := h
-  exact ⟨a, hl a ha, h1, h2, by rw [hc]; exact h3⟩
-
-theorem storeOK_mono {s s' : State} (hc : s'.cfg = s.cfg) (hl : ∀ a ∈ s.log, a ∈ s'.log) {loc : Loc} {st : Store}
-    (h : StoreOK s loc st) : StoreOK s' loc st := fun d hd => accepted_mono hc hl (h d hd)
-
-/-- Transport of the invariant to a state with the same configuration and a longer log, given the new lists. -/
-theorem inv_of (s s' : State) (hc : s'.cfg = s.cfg) (hl : ∀ a ∈ s.log, a ∈ s'.log)
-    (he : ∀ p ∈ s'.entries, p ∈ s.entries ∨ (StoreOK s' p.1 p.2.store ∧ (p.2.loaded = true → p.2.store.doc.isSome = true)))
-    (hd : ∀ p ∈ s'.disk, p ∈ s.disk ∨ StoreOK s' p.1 p.2)
-    (h : Inv s) : Inv s' := by
-  refine ⟨?_, ?_⟩
-  · intro p hp
-    rcases he p hp with hold | hnew
-    · exact ⟨storeOK_mono hc hl (h.1 p hold).1, (h.1 p hold).2⟩
-    · exact hnew
-  · intro p hp
-    rcases hd p hp with hold | hnew
-    · exact storeOK_mono hc hl (h.2 p hold)
-    · exact hnew
-
-theorem inv_setEntry (s : State) (loc : Loc) (e : Entry) (h : Inv s)
-    (hs : StoreOK s loc e.store) (hl : e.loaded = true → e.store.doc.isSome = true) : Inv (setEntry s loc e) := by
-  refine inv_of s (setEntry s loc e) rfl (fun a ha => ha) ?_ ?_ h
-  · intro p hp
-    rcases mem_upsert _ _ _ _ hp with rfl | hold
-    · exact Or.inr ⟨hs, hl⟩
-    · exact Or.inl hold
-  · intro p hp
-    simp only [setEntry] at hp
-    by_cases hdk : s.cfg.disk = true
-    · simp only [hdk, ↓reduceIte] at hp
-      rcases mem_upsert _ _ _ _ hp with rfl | hold
-      · exact Or.inr hs
-      · exact Or.inl hold
-    · simp only [hdk, Bool.false_eq_true, ↓reduceIte] at hp
-      exact Or.inl hp
-
-theorem setEntry_cfg (s : State) (loc : Loc) (e : Entry) : (setEntry s loc e).cfg = s.cfg := rfl
-theorem setEntry_log (s : State) (loc : Loc) (e : Entry) : (setEntry s loc e).log = s.log := rfl
-
-/-- Installing a freshly accepted document (and logging the acceptance) keeps the invariant. -/
-theorem inv_install (s : State) (loc : Loc) (e : Entry) (d : DocA) (cands : List Signer) (h : Inv s)
-    (hdoc : e.store.doc = some d) (hacc : acceptable s.cfg.sigMode d cands = true) :
-    Inv { setEntry s loc e with log := s.log ++ [⟨loc, d, cands⟩] } := by
-  have hA : Accepted { setEntry s loc e with log := s.log ++ [⟨loc, d, cands⟩] } loc d :=
-    ⟨⟨loc, d, cands⟩, by simp, rfl, rfl, hacc⟩
-  have hS : StoreOK { setEntry s loc e with log := s.log ++ [⟨loc, d, cands⟩] } loc e.store := by
-    intro d' hd'
-    rw [hdoc] at hd'
-    cases hd'
-    exact hA
-  refine inv_of s { setEntry s loc e with log := s.log ++ [⟨loc, d, cands⟩] } rfl (fun a ha => by simp [ha]) ?_ ?_ h
-  · intro p hp
-    rcases mem_upsert _ _ _ _ hp with rfl | hold
-    · exact Or.inr ⟨hS, fun _ => by rw [hdoc]; rfl⟩
-    · exact Or.inl hold
-  · intro p hp
-    simp only [setEntry] at hp
-    by_cases hdk : s.cfg.disk = true
-    · simp only [hdk, ↓reduceIte] at hp
-      rcases mem_upsert _ _ _ _ hp with rfl | hold
-      · exact Or.inr hS
-      · exact Or.inl hold
-    · simp only [hdk, Bool.false_eq_true, ↓reduceIte] at hp
-      exact Or.inl hp
-
-theorem inv_loadCRL (s : State) (loc : Loc) (e : Entry) (cands : List Signer) (h : Inv s) :
-    Inv (loadCRL s loc e cands).1 := by
-  unfold loadCRL
-  by_cases hc : loadRefused s e = true
-  · simp only [hc, ↓reduceIte]; exact h
-  · simp only [hc, Bool.false_eq_true, ↓reduceIte]
-    cases hst : stage s.cfg.sigMode firstLoadHonoursMode (servedAt s loc) cands with
-    | ok st d v =>
-      obtain ⟨_, hdoc, _, hacc, _⟩ := stage_ok _ _ _ _ _ _ _ hst
-      exact inv_install s loc _ d cands h hdoc hacc
-    | fetchFail => exact h
-    | parseFail => exact h
-    | sigFail d => exact h
-
-theorem inv_updateCrlEntry (s : State) (loc : Loc) (e : Entry) (nc : Option (List Signer)) (h : Inv s)
-    (he : StoreOK s loc e.store ∧ (e.loaded = true → e.store.doc.isSome = true)) :
-    Inv (updateCrlEntry s loc e nc).1 := by
-  unfold updateCrlEntry
-  by_cases hc : refreshRefused s e = true
-  · simp only [hc, ↓reduceIte]; exact h
-  · simp only [hc, Bool.false_eq_true, ↓reduceIte]
-    by_cases hl : (!e.store.hasLocs) = true
-    · simp only [hl, ↓reduceIte]; exact h
-    · simp only [hl, Bool.false_eq_true, ↓reduceIte]
-      cases hst : stage s.cfg.sigMode refreshHonoursMode (servedAt s loc) (refreshCands e nc) with
-      | ok st d v =>
-        obtain ⟨_, hdoc, _, hacc, _⟩ := stage_ok _ _ _ _ _ _ _ hst
-        exact inv_install s loc _ d _ h hdoc hacc
-      | fetchFail => exact h
-      | parseFail => exact h
-      | sigFail d => exact inv_setEntry s loc _ h he.1 he.2
-
-end Crv.Repo
-
-namespace Crv.Repo
-open Crv Crv.Generated
-
-def EntryOK (s : State) (loc : Loc) (e : Entry) : Prop :=
-  StoreOK s loc e.store ∧ (e.loaded = true → e.store.doc.isSome = true)
-
-theorem entryOK_of_mem (s : State) (h : Inv s) (loc : Loc) (e : Entry) (hm : lookup s.entries loc = some e) :
-    EntryOK s loc e :=
-  h.1 (loc, e) (lookup_mem _ _ _ hm)
-
-theorem entryOK_new (s : State) (h : Inv s) (loc : Loc) (cands : List Signer) : EntryOK s loc (newEntry s loc cands) := by
-  unfold newEntry EntryOK
-  by_cases hd : s.cfg.disk = true
-  · simp only [hd, ↓reduceIte]
-    cases hl : lookup s.disk loc with
-    | none =>
-      simp only [Option.getD_none]
-      exact ⟨(fun d hd' => by cases hd'), (fun hx => by cases hx)⟩
-    | some st =>
-      simp only [Option.getD_some]
-      exact ⟨h.2 (loc, st) (lookup_mem _ _ _ hl), fun hx => hx⟩
-  · simp only [hd, Bool.false_eq_true, ↓reduceIte]
-    exact ⟨(fun d hd' => by cases hd'), (fun hx => by cases hx)⟩
-
-theorem entryOK_setEntry (s : State) (loc loc' : Loc) (e e' : Entry) (h : EntryOK s loc e) : EntryOK (setEntry s loc' e') loc e :=
-  ⟨storeOK_mono rfl (fun a ha => ha) h.1, h.2⟩
-
-theorem inv_loadActively (s : State) (loc : Loc) (e : Entry) (cands : List Signer) (h : Inv s) (he : EntryOK s loc e) :
-    Inv (loadActively s loc e cands).1 := by
-  unfold loadActively
-  by_cases hc : (e.closed && closedEntriesSkipped) = true
-  · simp only [hc, ↓reduceIte]; exact h
-  · simp only [hc, Bool.false_eq_true, ↓reduceIte]
-    exact inv_loadCRL _ loc _ cands (inv_setEntry s loc _ h he.1 he.2)
-
-theorem inv_addCRL (s : State) (loc : Loc) (cands : List Signer) (h : Inv s) : Inv (addCRL s loc cands).1 := by
-  unfold addCRL
-  by_cases hu : s.unsupported.contains loc = true
-  · simp only [hu, ↓reduceIte]; exact h
-  · simp only [hu, Bool.false_eq_true, ↓reduceIte]
-    -- the entry looked up or created, and the state after registering it
-    cases hl : lookup s.entries loc with
-    | some e =>
-      simp only
-      have he : EntryOK s loc e := entryOK_of_mem s h loc e hl
-      -- `added = false`: no location write
-      simp only [Bool.false_and, Bool.false_eq_true, ↓reduceIte]
-      by_cases hact : (s.cfg.fetch == FetchMode.actively && !e.loaded) = true
-      · simp only [hact, ↓reduceIte]
-        exact inv_loadActively s loc e cands h he
-      · simp only [hact, Bool.false_eq_true, ↓reduceIte]
-        by_cases hsf : e.sigFailed = true
-        · simp only [hsf, ↓reduceIte]
-          cases hld : e.lastDoc with
-          | none => exact h
-          | some d =>
-            simp only
-            by_cases hv : verifies d cands = true
-            · simp only [hv, ↓reduceIte]
-              exact inv_setEntry s loc _ h he.1 he.2
-            · simp only [hv, Bool.false_eq_true, ↓reduceIte]; exact h
-        · simp only [hsf, Bool.false_eq_true, ↓reduceIte]; exact h
-    | none =>
-      simp only
-      have he : EntryOK s loc (newEntry s loc cands) := entryOK_new s h loc cands
-      have h1 : Inv (setEntry s loc (newEntry s loc cands)) := inv_setEntry s loc _ h he.1 he.2
-      have he1 : EntryOK (setEntry s loc (newEntry s loc cands)) loc (newEntry s loc cands) := entryOK_setEntry s loc loc _ _ he
-      by_cases hst : (true && !(newEntry s loc cands).loaded && locationsStoredOnAdd) = true
-      · simp only [hst, ↓reduceIte]
-        have h2 : Inv (setEntry (setEntry s loc (newEntry s loc cands)) loc
-            { newEntry s loc cands with store := { (newEntry s loc cands).store with hasLocs := true } }) :=
-          inv_setEntry _ loc _ h1 he1.1 he1.2
-        by_cases hact : ((setEntry (setEntry s loc (newEntry s loc cands)) loc
-            { newEntry s loc cands with store := { (newEntry s loc cands).store with hasLocs := true } }).cfg.fetch == FetchMode.actively &&
-            !(newEntry s loc cands).loaded) = true
-        · simp only [hact, ↓reduceIte]
-          have he2 := entryOK_setEntry (setEntry s loc (newEntry s loc cands)) loc loc
-            { newEntry s loc cands with store := { (newEntry s loc cands).store with hasLocs := true } }
-            { newEntry s loc cands with store := { (newEntry s loc cands).store with hasLocs := true } } he1
-          exact inv_loadActively _ loc _ cands h2 he2
-        · simp only [hact, Bool.false_eq_true, ↓reduceIte]
-          -- a new entry never has sigFailed set
-          have : (newEntry s loc cands).sigFailed = false := rfl
-          simp only [this, Bool.false_eq_true, ↓reduceIte]
-          exact h2
-      · simp only [hst, Bool.false_eq_true, ↓reduceIte]
-        by_cases hact : ((setEntry s loc (newEntry s loc cands)).cfg.fetch == FetchMode.actively &&
-            !(newEntry s loc cands).loaded) = true
-        · simp only [hact, ↓reduceIte]
-          exact inv_loadActively _ loc _ cands h1 he1
-        · simp only [hact, Bool.false_eq_true, ↓reduceIte]
-          have : (newEntry s loc cands).sigFailed = false := rfl
-          simp only [this, Bool.false_eq_true, ↓reduceIte]
-          exact h1
-
-end Crv.Repo
-
-namespace Crv.Repo
-open Crv Crv.Generated
-
-theorem inv_updateOne (s : State) (loc : Loc) (h : Inv s) : Inv (updateOne s loc) := by
-  unfold updateOne
-  cases hl : lookup s.entries loc with
-  | none => exact h
-  | some e =>
-    simp only
-    have he := entryOK_of_mem s h loc e hl
-    by_cases hcl : (e.closed && closedEntriesSkipped) = true
-    · simp only [hcl, ↓reduceIte]; exact h
-    · simp only [hcl, Bool.false_eq_true, ↓reduceIte]
-      by_cases hld : (!e.loaded) = true
-      · simp only [hld, ↓reduceIte]; exact inv_loadCRL s loc e _ h
-      · simp only [hld, Bool.false_eq_true, ↓reduceIte]; exact inv_updateCrlEntry s loc e none h he
-
-theorem inv_updateAll (order : List Loc) : ∀ s, Inv s → Inv (updateAll s order) := by
-  induction order with
-  | nil => intro s h; exact h
-  | cons l t ih => intro s h; exact ih _ (inv_updateOne s l h)
-
-theorem inv_provisionOne (s : State) (loc : Loc) (trusted : List Signer) (h : Inv s) : Inv (provisionOne s loc trusted).1 := by
-  unfold provisionOne
-  have h1 := inv_addCRL s loc trusted h
-  cases hadd : addCRL s loc trusted with
-  | mk s1 rest =>
-    obtain ⟨added, o1⟩ := rest
-    rw [hadd] at h1
-    simp only at h1 ⊢
-    by_cases ho : (o1 == Outcome.err) = true
-    · simp only [ho, ↓reduceIte]; exact h1
-    · simp only [ho, Bool.false_eq_true, ↓reduceIte]
-      cases hl : lookup s1.entries loc with
-      | none => exact h1
-      | some e => exact inv_updateCrlEntry s1 loc e _ h1 (entryOK_of_mem s1 h1 loc e hl)
-
-theorem inv_handshake (s : State) (c : Cert) (cands : List Signer) (h : Inv s) : Inv (handshake s c cands).1 := by
-  unfold handshake
-  cases hc : c.cdp with
-  | none => exact h
-  | some loc =>
-    simp only
-    have h1 := inv_addCRL s loc cands h
-    cases hadd : addCRL s loc cands with
-    | mk s1 rest =>
-      obtain ⟨added, o⟩ := rest
-      rw [hadd] at h1
-      exact h1
-
-theorem inv_restart (s : State) (h : Inv s) : Inv (restart s) :=
-  ⟨(fun p hp => by cases hp), h.2⟩
-
-theorem inv_close (s : State) (h : Inv s) : Inv (close s) := by
-  unfold close
-  by_cases hc : closeMarksEntries = true
-  · simp only [hc, ↓reduceIte]
-    refine ⟨?_, h.2⟩
-    intro p hp
-    simp only [List.mem_map] at hp
-    obtain ⟨q, hq, rfl⟩ := hp
-    exact h.1 q hq
-  · simp only [hc, Bool.false_eq_true, ↓reduceIte]
-    exact ⟨(fun p hp => by cases hp), h.2⟩
-
-theorem inv_serve (s : State) (loc : Loc) (sv : Served) (h : Inv s) : Inv (serve s loc sv) := h
-
-/-- The operations of a history. -/
-inductive Op
-  | serve (loc : Loc) (sv : Served)
-  | handshake (c : Cert) (cands : List Signer)
-  | tick (order : List Loc)              -- `UpdateCRLs` over the identifiers in some enumeration order
-  | provision (loc : Loc) (trusted : List Signer)
-  | restart
-  | close
-  | markUnsupported (loc : Loc)
-
-def step (s : State) : Op → State
-  | .serve loc sv => serve s loc sv
-  | .handshake c cands => (handshake s c cands).1
-  | .tick order => updateAll s order
-  | .provision loc trusted => (provisionOne s loc trusted).1
-  | .restart => restart s
-  | .close => close s
-  | .markUnsupported loc => { s with unsupported := loc :: s.unsupported }
-
-def run (cfg : Cfg) (ops : List Op) : State := ops.foldl step { cfg := cfg }
-
-theorem inv_step (s : State) (op : Op) (h : Inv s) : Inv (step s op) := by
-  cases op with
-  | serve loc sv => exact inv_serve s loc sv h
-  | handshake c cands => exact inv_handshake s c cands h
-  | tick order => exact inv_updateAll order s h
-  | provision loc trusted => exact inv_provisionOne s loc trusted h
-  | restart => exact inv_restart s h
-  | close => exact inv_close s h
-  | markUnsupported loc => exact h
-
-theorem inv_init (cfg : Cfg) : Inv { cfg := cfg } :=
-  ⟨(fun p hp => by cases hp), (fun p hp => by cases hp)⟩
-
-theorem inv_foldl (ops : List Op) : ∀ s, Inv s → Inv (ops.foldl step s) := by
-  induction ops with
-  | nil => intro s h; exact h
-  | cons o t ih => intro s h; exact ih _ (inv_step s o h)
-
-/-- Every state reachable by any history satisfies the invariant. -/
-theorem inv_run (cfg : Cfg) (ops : List Op) : Inv (run cfg ops) := inv_foldl ops _ (inv_init cfg)
-
-theorem loadCRL_cfg (s : State) (loc : Loc) (e : Entry) (cands : List Signer) : (loadCRL s loc e cands).1.cfg = s.cfg := by
-  unfold loadCRL
-  by_cases hc : loadRefused s e = true
-  · simp only [hc, ↓reduceIte]
-  · simp only [hc, Bool.false_eq_true, ↓reduceIte]
-    cases hst : stage s.cfg.sigMode firstLoadHonoursMode (servedAt s loc) cands <;> rfl
-
-theorem updateCrlEntry_cfg (s : State) (loc : Loc) (e : Entry) (nc : Option (List Signer)) :
-    (updateCrlEntry s loc e nc).1.cfg = s.cfg := by
-  unfold updateCrlEntry
-  by_cases hc : refreshRefused s e = true
-  · simp only [hc, ↓reduceIte]
-  · simp only [hc, Bool.false_eq_true, ↓reduceIte]
-    by_cases hl : (!e.store.hasLocs) = true
-    · simp only [hl, ↓reduceIte]
-    · simp only [hl, Bool.false_eq_true, ↓reduceIte]
-      cases hst : stage s.cfg.sigMode refreshHonoursMode (servedAt s loc) (refreshCands e nc) <;> rfl
-
-theorem loadActively_cfg (s : State) (loc : Loc) (e : Entry) (cands : List Signer) : (loadActively s loc e cands).1.cfg = s.cfg := by
-  unfold loadActively
-  split
-  · rfl
-  · rw [loadCRL_cfg]; rfl
-
-theorem addCRL_cfg (s : State) (loc : Loc) (cands : List Signer) : (addCRL s loc cands).1.cfg = s.cfg := by
-  unfold addCRL
-  split
-  · rfl
-  · cases hl : lookup s.entries loc with
-    | some e =>
-      simp only [Bool.false_and, Bool.false_eq_true, ↓reduceIte]
-      split
-      · rw [loadActively_cfg]
-      · split
-        · split
-          · split <;> rfl
-          · rfl
-        · rfl
-    | none =>
-      simp only
-      split
-      · split
-        · rw [loadActively_cfg]; rfl
-        · rfl
-      · split
-        · rw [loadActively_cfg]; rfl
-        · rfl
-
-theorem updateOne_cfg (s : State) (loc : Loc) : (updateOne s loc).cfg = s.cfg := by
-  unfold updateOne
-  split
-  · rfl
-  · split
-    · rfl
-    · split
-      · exact loadCRL_cfg _ _ _ _
-      · exact updateCrlEntry_cfg _ _ _ _
-
-theorem updateAll_cfg (order : List Loc) : ∀ s, (updateAll s order).cfg = s.cfg := by
-  induction order with
-  | nil => intro s; rfl
-  | cons l t ih => intro s; exact (ih _).trans (updateOne_cfg s l)
-
-theorem provisionOne_cfg (s : State) (loc : Loc) (trusted : List Signer) : (provisionOne s loc trusted).1.cfg = s.cfg := by
-  unfold provisionOne
-  have h1 := addCRL_cfg s loc trusted
-  cases hadd : addCRL s loc trusted with
-  | mk s1 rest =>
-    obtain ⟨added, o1⟩ := rest
-    rw [hadd] at h1
-    simp only at h1 ⊢
-    split
-    · exact h1
-    · split
-      · exact h1
-      · rw [updateCrlEntry_cfg]; exact h1
-
-theorem handshake_cfg (s : State) (c : Cert) (cands : List Signer) : (handshake s c cands).1.cfg = s.cfg := by
-  unfold handshake
-  cases hc : c.cdp with
-  | none => rfl
-  | some loc =>
-    simp only
-    have h1 := addCRL_cfg s loc cands
-    cases hadd : addCRL s loc cands with
-    | mk s1 rest =>
-      obtain ⟨added, o⟩ := rest
-      rw [hadd] at h1
-      exact h1
-
-theorem close_cfg (s : State) : (close s).cfg = s.cfg := by
-  unfold close; split <;> rfl
-
-theorem cfg_step (s : State) (op : Op) : (step s op).cfg = s.cfg := by
-  cases op with
-  | serve loc sv => rfl
-  | handshake c cands => exact handshake_cfg s c cands
-  | tick order => exact updateAll_cfg order s
-  | provision loc trusted => exact provisionOne_cfg s loc trusted
-  | restart => rfl
-  | close => exact close_cfg s
-  | markUnsupported loc => rfl
-
-theorem cfg_run (cfg : Cfg) (ops : List Op) : (run cfg ops).cfg = cfg := by
-  unfold run
-  have : ∀ (ops : List Op) (s : State), (ops.foldl step s).cfg = s.cfg := by
-    intro ops
-    induction ops with
-    | nil => intro s; rfl
-    | cons o t ih => intro s; exact (ih _).trans (cfg_step s o)
-  exact this ops _
-
-end Crv.Repo
-
-namespace Crv.Repo
+/-- With the mode honoured, a signature failure is only reported under `verify`. -/
+theorem stage_sigFail (m : SigMode) (sv : Served) (cands : List Signer) (d : DocA)
+    (h : stage m true sv cands = .sigFail d) : m = .verify ∧ sv = .doc d ∧ verifies d cands = false := by
+  unfold stage at h
+  cases sv with
+  | down => simp at h
+  | garbage => simp at h
+  | doc d' =>
+    cases m <;> by_cases hv : verifies d' cands = true <;> simp [hv] at h
+    subst h
+    exact ⟨rfl, rfl, by simpa using hv⟩
 
 theorem lookup_upsert {α : Type} (l : List (Loc × α)) (k : Loc) (v : α) : lookup (upsert l k v) k = some v := by
   induction l with
@@ -612,5 +216,1001 @@ theorem lookup_upsert {α : Type} (l : List (Loc × α)) (k : Loc) (v : α) : lo
       unfold lookup at ih ⊢
       simp only [List.find?_cons, hk]
       exact ih
+
+end Crv.Repo
+
+namespace Crv.Repo
+open Crv Crv.Generated
+
+/-! ### What one lock-protected section may do to configuration and ghost log -/
+
+/-- `s'` has the configuration of `s`, all of its log, and every new log record carries the mode configured in `s`. -/
+structure Ext (s s' : State) : Prop where
+  cfg : s'.cfg = s.cfg
+  mono : ∀ a ∈ s.log, a ∈ s'.log
+  fresh : ∀ a ∈ s'.log, a ∈ s.log ∨ a.mode = s.cfg.sigMode
+
+theorem Ext.refl (s : State) : Ext s s := ⟨rfl, fun _ h => h, fun _ h => Or.inl h⟩
+
+theorem Ext.trans {s s1 s2 : State} (h1 : Ext s s1) (h2 : Ext s1 s2) : Ext s s2 := by
+  refine ⟨h2.cfg.trans h1.cfg, fun a ha => h2.mono a (h1.mono a ha), ?_⟩
+  intro a ha
+  rcases h2.fresh a ha with h | h
+  · exact h1.fresh a h
+  · exact Or.inr (by rw [h, h1.cfg])
+
+theorem ext_setEntry (s : State) (loc : Loc) (e : Entry) : Ext s (setEntry s loc e) :=
+  ⟨rfl, fun _ h => h, fun _ h => Or.inl h⟩
+
+theorem ext_setEntry_log (s : State) (loc : Loc) (e : Entry) (loc' : Loc) (d : DocA) (cands : List Signer) :
+    Ext s { setEntry s loc e with log := s.log ++ [⟨loc', d, cands, s.cfg.sigMode⟩] } := by
+  refine ⟨rfl, fun a h => by simp [h], ?_⟩
+  intro a ha
+  simp only [List.mem_append, List.mem_singleton] at ha
+  rcases ha with h | h
+  · exact Or.inl h
+  · exact Or.inr (by rw [h])
+
+theorem ext_loadCRL (s : State) (loc : Loc) (e : Entry) (cands : List Signer) : Ext s (loadCRL s loc e cands).1 := by
+  unfold loadCRL
+  by_cases hc : loadRefused s e = true
+  · simp only [hc, ↓reduceIte]; exact Ext.refl s
+  · simp only [hc, Bool.false_eq_true, ↓reduceIte]
+    cases hst : stage s.cfg.sigMode firstLoadHonoursMode (servedAt s loc) cands with
+    | ok st d v => exact ext_setEntry_log s loc _ loc d cands
+    | fetchFail => exact Ext.refl s
+    | parseFail => exact Ext.refl s
+    | sigFail d => exact Ext.refl s
+
+theorem ext_updateCrlEntry (s : State) (loc : Loc) (e : Entry) (nc : Option (List Signer)) :
+    Ext s (updateCrlEntry s loc e nc).1 := by
+  unfold updateCrlEntry
+  by_cases hc : refreshRefused s e = true
+  · simp only [hc, ↓reduceIte]; exact Ext.refl s
+  · simp only [hc, Bool.false_eq_true, ↓reduceIte]
+    by_cases hl : (!e.store.hasLocs) = true
+    · simp only [hl, ↓reduceIte]; exact Ext.refl s
+    · simp only [hl, Bool.false_eq_true, ↓reduceIte]
+      cases hst : stage s.cfg.sigMode refreshHonoursMode (servedAt s loc) (refreshCands e nc) with
+      | ok st d v => exact ext_setEntry_log s loc _ loc d _
+      | fetchFail => exact Ext.refl s
+      | parseFail => exact Ext.refl s
+      | sigFail d => exact ext_setEntry s loc _
+
+theorem ext_loadActively (s : State) (loc : Loc) (e : Entry) (cands : List Signer) : Ext s (loadActively s loc e cands).1 := by
+  unfold loadActively
+  split
+  · exact Ext.refl s
+  · exact (ext_setEntry s loc _).trans (ext_loadCRL _ loc _ cands)
+
+theorem ext_addCRL (s : State) (loc : Loc) (cands : List Signer) : Ext s (addCRL s loc cands).1 := by
+  unfold addCRL
+  split
+  · exact Ext.refl s
+  · cases hl : lookup s.entries loc with
+    | some e =>
+      simp only [Bool.false_and, Bool.false_eq_true, ↓reduceIte]
+      split
+      · exact ext_loadActively s loc e cands
+      · split
+        · split
+          · split
+            · exact ext_setEntry_log s loc _ loc _ cands
+            · exact Ext.refl s
+          · exact Ext.refl s
+        · exact Ext.refl s
+    | none =>
+      simp only
+      have hnf : (newEntry s loc cands).sigFailed = false := rfl
+      split
+      · split
+        · exact ((ext_setEntry s loc _).trans (ext_setEntry _ loc _)).trans (ext_loadActively _ loc _ cands)
+        · simp only [hnf, Bool.false_eq_true, ↓reduceIte]
+          exact (ext_setEntry s loc _).trans (ext_setEntry _ loc _)
+      · split
+        · exact (ext_setEntry s loc _).trans (ext_loadActively _ loc _ cands)
+        · simp only [hnf, Bool.false_eq_true, ↓reduceIte]
+          exact ext_setEntry s loc _
+
+theorem ext_updateOne (s : State) (loc : Loc) : Ext s (updateOne s loc) := by
+  unfold updateOne
+  split
+  · exact Ext.refl s
+  · split
+    · exact Ext.refl s
+    · split
+      · exact ext_loadCRL _ _ _ _
+      · exact ext_updateCrlEntry _ _ _ _
+
+theorem ext_updateAll (order : List Loc) : ∀ s, Ext s (updateAll s order) := by
+  induction order with
+  | nil => intro s; exact Ext.refl s
+  | cons l t ih => intro s; exact (ext_updateOne s l).trans (ih _)
+
+theorem ext_provisionOne (s : State) (loc : Loc) (trusted : List Signer) : Ext s (provisionOne s loc trusted).1 := by
+  unfold provisionOne
+  have h1 := ext_addCRL s loc trusted
+  cases hadd : addCRL s loc trusted with
+  | mk s1 rest =>
+    obtain ⟨added, o1⟩ := rest
+    rw [hadd] at h1
+    simp only at h1 ⊢
+    split
+    · exact h1
+    · split
+      · exact h1
+      · exact h1.trans (ext_updateCrlEntry _ _ _ _)
+
+theorem ext_handshake (s : State) (c : Cert) (cands : List Signer) : Ext s (handshake s c cands).1 := by
+  unfold handshake
+  cases hc : c.cdp with
+  | none => exact Ext.refl s
+  | some loc =>
+    simp only
+    have h1 := ext_addCRL s loc cands
+    cases hadd : addCRL s loc cands with
+    | mk s1 rest =>
+      obtain ⟨added, o⟩ := rest
+      rw [hadd] at h1
+      exact h1
+
+theorem ext_close (s : State) : Ext s (close s) := by
+  unfold close; split
+  · exact ⟨rfl, fun _ h => h, fun _ h => Or.inl h⟩
+  · exact ⟨rfl, fun _ h => h, fun _ h => Or.inl h⟩
+
+theorem loadCRL_cfg (s : State) (loc : Loc) (e : Entry) (cands : List Signer) : (loadCRL s loc e cands).1.cfg = s.cfg :=
+  (ext_loadCRL s loc e cands).cfg
+theorem updateCrlEntry_cfg (s : State) (loc : Loc) (e : Entry) (nc : Option (List Signer)) :
+    (updateCrlEntry s loc e nc).1.cfg = s.cfg := (ext_updateCrlEntry s loc e nc).cfg
+theorem loadActively_cfg (s : State) (loc : Loc) (e : Entry) (cands : List Signer) : (loadActively s loc e cands).1.cfg = s.cfg :=
+  (ext_loadActively s loc e cands).cfg
+theorem addCRL_cfg (s : State) (loc : Loc) (cands : List Signer) : (addCRL s loc cands).1.cfg = s.cfg := (ext_addCRL s loc cands).cfg
+theorem updateOne_cfg (s : State) (loc : Loc) : (updateOne s loc).cfg = s.cfg := (ext_updateOne s loc).cfg
+theorem updateAll_cfg (order : List Loc) (s : State) : (updateAll s order).cfg = s.cfg := (ext_updateAll order s).cfg
+theorem provisionOne_cfg (s : State) (loc : Loc) (trusted : List Signer) : (provisionOne s loc trusted).1.cfg = s.cfg :=
+  (ext_provisionOne s loc trusted).cfg
+theorem handshake_cfg (s : State) (c : Cert) (cands : List Signer) : (handshake s c cands).1.cfg = s.cfg := (ext_handshake s c cands).cfg
+theorem close_cfg (s : State) : (close s).cfg = s.cfg := (ext_close s).cfg
+
+end Crv.Repo
+
+namespace Crv.Repo
+open Crv Crv.Generated
+
+/-! ### Invariant: stored documents were accepted under the policy configured at their intake; stored signer
+certificates verified a list of that location; under `verify` what is loaded carries a signer certificate -/
+
+/-- `d` came into force at `loc` at some point, accepted under the signature mode configured *at that intake*
+(`a.mode`, see `log_mode_at_intake`) against the candidate signers available at that intake. -/
+def Accepted (s : State) (loc : Loc) (d : DocA) : Prop :=
+  ∃ a ∈ s.log, a.loc = loc ∧ a.doc = d ∧ acceptable a.mode d a.cands = true
+
+/-- `d` was verified at `loc` against the candidate signers presented at some intake (or signature-certificate retry). -/
+def Verified (s : State) (loc : Loc) (d : DocA) : Prop :=
+  ∃ a ∈ s.log, a.loc = loc ∧ a.doc = d ∧ verifies d a.cands = true
+
+/-- The signer `sg` verified some list of `loc` against presented candidates. -/
+def SignerSeen (s : State) (loc : Loc) (sg : Signer) : Prop :=
+  ∃ a ∈ s.log, a.loc = loc ∧ a.doc.signer = sg ∧ verifies a.doc a.cands = true
+
+/-- `k = true` adds the clauses that only hold along histories whose provisioning steps satisfy `ProvisionsSafe`. -/
+structure StoreOK (k : Bool) (s : State) (loc : Loc) (st : Store) : Prop where
+  accepted : ∀ d, st.doc = some d → Accepted s loc d
+  signer : ∀ sg, st.signer = some sg → SignerSeen s loc sg
+  verified : k = true → ∀ d, st.doc = some d → st.signer.isSome = true → Verified s loc d
+
+structure EntryOK (k : Bool) (s : State) (loc : Loc) (e : Entry) : Prop where
+  store : StoreOK k s loc e.store
+  loadedDoc : e.loaded = true → e.store.doc.isSome = true
+  verifySigner : s.cfg.sigMode = .verify → e.loaded = true → e.store.signer.isSome = true
+  failed : e.sigFailed = true → s.cfg.sigMode = .verify ∨
+    (s.cfg.sigMode = .verifyLog ∧ e.loaded = true ∧ ∀ d, e.lastDoc = some d → e.store.doc = some d)
+  failedLoaded : k = true → e.sigFailed = true → e.loaded = true
+
+def Inv (k : Bool) (s : State) : Prop :=
+  (∀ p ∈ s.entries, EntryOK k s p.1 p.2) ∧ (∀ p ∈ s.disk, StoreOK k s p.1 p.2)
+
+theorem accepted_mono {s s' : State} (hl : ∀ a ∈ s.log, a ∈ s'.log) {loc : Loc} {d : DocA}
+    (h : Accepted s loc d) : Accepted s' loc d := by
+  obtain ⟨a, ha, h1, h2, h3⟩ := h
+  exact ⟨a, hl a ha, h1, h2, h3⟩
+
+theorem verified_mono {s s' : State} (hl : ∀ a ∈ s.log, a ∈ s'.log) {loc : Loc} {d : DocA}
+    (h : Verified s loc d) : Verified s' loc d := by
+  obtain ⟨a, ha, h1, h2, h3⟩ := h
+  exact ⟨a, hl a ha, h1, h2, h3⟩
+
+theorem signerSeen_mono {s s' : State} (hl : ∀ a ∈ s.log, a ∈ s'.log) {loc : Loc} {sg : Signer}
+    (h : SignerSeen s loc sg) : SignerSeen s' loc sg := by
+  obtain ⟨a, ha, h1, h2, h3⟩ := h
+  exact ⟨a, hl a ha, h1, h2, h3⟩
+
+theorem storeOK_mono {k : Bool} {s s' : State} (hl : ∀ a ∈ s.log, a ∈ s'.log) {loc : Loc} {st : Store}
+    (h : StoreOK k s loc st) : StoreOK k s' loc st :=
+  ⟨fun d hd => accepted_mono hl (h.accepted d hd), fun sg hs => signerSeen_mono hl (h.signer sg hs),
+   fun hk d hd hs => verified_mono hl (h.verified hk d hd hs)⟩
+
+theorem entryOK_mono {k : Bool} {s s' : State} (hm : s'.cfg.sigMode = s.cfg.sigMode) (hl : ∀ a ∈ s.log, a ∈ s'.log)
+    {loc : Loc} {e : Entry} (h : EntryOK k s loc e) : EntryOK k s' loc e :=
+  ⟨storeOK_mono hl h.store, h.loadedDoc, by rw [hm]; exact h.verifySigner, by rw [hm]; exact h.failed, h.failedLoaded⟩
+
+theorem storeOK_empty (k : Bool) (s : State) (loc : Loc) : StoreOK k s loc {} :=
+  ⟨fun d hd => (by cases hd), fun sg hs => (by cases hs), fun _ d hd => (by cases hd)⟩
+
+/-- Transport of the invariant to a state with the same signature mode and a longer log, given the new lists. -/
+theorem inv_of (k : Bool) (s s' : State) (hm : s'.cfg.sigMode = s.cfg.sigMode) (hl : ∀ a ∈ s.log, a ∈ s'.log)
+    (he : ∀ p ∈ s'.entries, p ∈ s.entries ∨ EntryOK k s' p.1 p.2)
+    (hd : ∀ p ∈ s'.disk, p ∈ s.disk ∨ StoreOK k s' p.1 p.2)
+    (h : Inv k s) : Inv k s' := by
+  refine ⟨?_, ?_⟩
+  · intro p hp
+    rcases he p hp with hold | hnew
+    · exact entryOK_mono hm hl (h.1 p hold)
+    · exact hnew
+  · intro p hp
+    rcases hd p hp with hold | hnew
+    · exact storeOK_mono hl (h.2 p hold)
+    · exact hnew
+
+theorem setEntry_cfg (s : State) (loc : Loc) (e : Entry) : (setEntry s loc e).cfg = s.cfg := rfl
+theorem setEntry_log (s : State) (loc : Loc) (e : Entry) : (setEntry s loc e).log = s.log := rfl
+
+/-- Writing an entry (and, with the disk backend, its store) and appending to the ghost log keeps the invariant when the
+entry written is fine in the new state. -/
+theorem inv_setEntry_log (k : Bool) (s : State) (loc : Loc) (e : Entry) (l : List Accept) (h : Inv k s)
+    (he : EntryOK k { setEntry s loc e with log := s.log ++ l } loc e) :
+    Inv k { setEntry s loc e with log := s.log ++ l } := by
+  refine inv_of k s { setEntry s loc e with log := s.log ++ l } rfl (fun a ha => by simp [ha]) ?_ ?_ h
+  · intro p hp
+    rcases mem_upsert _ _ _ _ hp with rfl | hold
+    · exact Or.inr he
+    · exact Or.inl hold
+  · intro p hp
+    simp only [setEntry] at hp
+    by_cases hdk : s.cfg.disk = true
+    · simp only [hdk, ↓reduceIte] at hp
+      rcases mem_upsert _ _ _ _ hp with rfl | hold
+      · exact Or.inr he.store
+      · exact Or.inl hold
+    · simp only [hdk, Bool.false_eq_true, ↓reduceIte] at hp
+      exact Or.inl hp
+
+theorem inv_setEntry (k : Bool) (s : State) (loc : Loc) (e : Entry) (h : Inv k s) (he : EntryOK k s loc e) :
+    Inv k (setEntry s loc e) := by
+  refine inv_of k s (setEntry s loc e) rfl (fun a ha => ha) ?_ ?_ h
+  · intro p hp
+    rcases mem_upsert _ _ _ _ hp with rfl | hold
+    · exact Or.inr (entryOK_mono (s := s) (s' := setEntry s loc e) rfl (fun a ha => ha) he)
+    · exact Or.inl hold
+  · intro p hp
+    simp only [setEntry] at hp
+    by_cases hdk : s.cfg.disk = true
+    · simp only [hdk, ↓reduceIte] at hp
+      rcases mem_upsert _ _ _ _ hp with rfl | hold
+      · exact Or.inr (storeOK_mono (s := s) (s' := setEntry s loc e) (fun a ha => ha) he.store)
+      · exact Or.inl hold
+    · simp only [hdk, Bool.false_eq_true, ↓reduceIte] at hp
+      exact Or.inl hp
+
+/-- The store a successful staging produced is fine wherever the acceptance is in the log. -/
+theorem storeOK_staged (k : Bool) (s' : State) (loc : Loc) (m : SigMode) (hm : Bool) (sv : Served) (cands : List Signer)
+    (st : Store) (d : DocA) (v : Bool) (hst : stage m hm sv cands = .ok st d v)
+    (hlog : (⟨loc, d, cands, m⟩ : Accept) ∈ s'.log) : StoreOK k s' loc st := by
+  obtain ⟨_, hdoc, _, hacc, _⟩ := stage_ok _ _ _ _ _ _ _ hst
+  have hsg := stage_ok_signer _ _ _ _ _ _ _ hst
+  refine ⟨?_, ?_, ?_⟩
+  · intro d' hd'
+    rw [hdoc] at hd'; cases hd'
+    exact ⟨_, hlog, rfl, rfl, hacc⟩
+  · intro sg hs
+    rcases hsg with ⟨_, h2, h3⟩ | ⟨_, h2, _⟩
+    · rw [h2] at hs; cases hs
+      exact ⟨_, hlog, rfl, rfl, h3⟩
+    · rw [h2] at hs; cases hs
+  · intro _ d' hd' hs
+    rw [hdoc] at hd'; cases hd'
+    rcases hsg with ⟨_, _, h3⟩ | ⟨_, h2, _⟩
+    · exact ⟨_, hlog, rfl, rfl, h3⟩
+    · rw [h2] at hs; cases hs
+
+/-- First load of a not yet loaded entry. -/
+theorem inv_loadCRL (k : Bool) (s : State) (loc : Loc) (e : Entry) (cands : List Signer) (h : Inv k s)
+    (he : EntryOK k s loc e) (hnl : e.loaded = false) : Inv k (loadCRL s loc e cands).1 := by
+  unfold loadCRL
+  by_cases hc : loadRefused s e = true
+  · simp only [hc, ↓reduceIte]; exact h
+  · simp only [hc, Bool.false_eq_true, ↓reduceIte]
+    cases hst : stage s.cfg.sigMode firstLoadHonoursMode (servedAt s loc) cands with
+    | ok st d v =>
+      obtain ⟨_, hdoc, _, _, _⟩ := stage_ok _ _ _ _ _ _ _ hst
+      have hsg := stage_ok_signer _ _ _ _ _ _ _ hst
+      apply inv_setEntry_log k s loc _ [⟨loc, d, cands, s.cfg.sigMode⟩] h
+      refine ⟨storeOK_staged k _ loc _ _ _ _ _ _ _ hst (by simp), ?_, ?_, ?_, ?_⟩
+      · intro _; show st.doc.isSome = true; rw [hdoc]; rfl
+      · intro hmv _
+        show st.signer.isSome = true
+        rcases hsg with ⟨_, h2, _⟩ | ⟨_, _, h3⟩
+        · rw [h2]; rfl
+        · exact absurd hmv h3
+      · intro hsf
+        rcases he.failed hsf with h1 | ⟨_, h2, _⟩
+        · exact Or.inl h1
+        · rw [hnl] at h2; cases h2
+      · intro _ _; rfl
+    | fetchFail => exact h
+    | parseFail => exact h
+    | sigFail d => exact h
+
+/-- Refresh. With `k = true` the entry has to be loaded or the mode not `verify`: a refresh of a *not loaded* entry that fails
+verification under `verify` leaves the failure flag on an entry whose (persisted, possibly never verified) list is not in force. -/
+theorem inv_updateCrlEntry (k : Bool) (s : State) (loc : Loc) (e : Entry) (nc : Option (List Signer)) (h : Inv k s)
+    (he : EntryOK k s loc e) (hk : k = true → e.loaded = true ∨ s.cfg.sigMode ≠ .verify) :
+    Inv k (updateCrlEntry s loc e nc).1 := by
+  unfold updateCrlEntry
+  by_cases hc : refreshRefused s e = true
+  · simp only [hc, ↓reduceIte]; exact h
+  · simp only [hc, Bool.false_eq_true, ↓reduceIte]
+    by_cases hl : (!e.store.hasLocs) = true
+    · simp only [hl, ↓reduceIte]; exact h
+    · simp only [hl, Bool.false_eq_true, ↓reduceIte]
+      cases hst : stage s.cfg.sigMode refreshHonoursMode (servedAt s loc) (refreshCands e nc) with
+      | ok st d v =>
+        obtain ⟨_, hdoc, _, _, _⟩ := stage_ok _ _ _ _ _ _ _ hst
+        have hsg := stage_ok_signer _ _ _ _ _ _ _ hst
+        apply inv_setEntry_log k s loc _ [⟨loc, d, refreshCands e nc, s.cfg.sigMode⟩] h
+        have hloaded : (e.loaded || updateMarksLoaded) = true := by simp [updateMarksLoaded]
+        refine ⟨storeOK_staged k _ loc _ _ _ _ _ _ _ hst (by simp), ?_, ?_, ?_, ?_⟩
+        · intro _; show st.doc.isSome = true; rw [hdoc]; rfl
+        · intro hmv _
+          show st.signer.isSome = true
+          rcases hsg with ⟨_, h2, _⟩ | ⟨_, _, h3⟩
+          · rw [h2]; rfl
+          · exact absurd hmv h3
+        · intro hsf
+          rcases hsg with ⟨hv, _, _⟩ | ⟨hv, _, hne⟩
+          · subst hv; simp at hsf
+          · subst hv
+            cases hmode : s.cfg.sigMode with
+            | none =>
+              simp [hmode] at hsf
+              rcases he.failed hsf with h1 | ⟨h1, _⟩
+              · rw [hmode] at h1; cases h1
+              · rw [hmode] at h1; cases h1
+            | verifyLog =>
+              refine Or.inr ⟨hmode, hloaded, ?_⟩
+              intro d' hd'
+              simp at hd'
+              show st.doc = some d'
+              rw [hdoc, hd']
+            | verify => exact absurd hmode hne
+        · intro _ _; exact hloaded
+      | fetchFail => exact h
+      | parseFail => exact h
+      | sigFail d =>
+        have hmv := (stage_sigFail _ _ _ _ hst).1
+        apply inv_setEntry k s loc _ h
+        refine ⟨he.store, he.loadedDoc, he.verifySigner, fun _ => Or.inl hmv, ?_⟩
+        intro hk' _
+        rcases hk hk' with h1 | h1
+        · exact h1
+        · exact absurd hmv h1
+
+end Crv.Repo
+
+namespace Crv.Repo
+open Crv Crv.Generated
+
+theorem entryOK_of_mem (k : Bool) (s : State) (h : Inv k s) (loc : Loc) (e : Entry) (hm : lookup s.entries loc = some e) :
+    EntryOK k s loc e :=
+  h.1 (loc, e) (lookup_mem _ _ _ hm)
+
+/-- `addNewEmptyEntry`: the entry opened over the persisted directory. Under `verify` it only counts as loaded when a signer
+certificate is stored with the list (regenerated fact `persistedNeedsSignerUnderVerify`). -/
+theorem entryOK_new (k : Bool) (s : State) (h : Inv k s) (loc : Loc) (cands : List Signer) :
+    EntryOK k s loc (newEntry s loc cands) := by
+  have key : ∀ st : Store, StoreOK k s loc st →
+      EntryOK k s loc { store := st, loaded := st.doc.isSome &&
+        (!(persistedNeedsSignerUnderVerify && s.cfg.sigMode == .verify) || st.signer.isSome), chains := cands } := by
+    intro st hst
+    refine ⟨hst, ?_, ?_, ?_, ?_⟩
+    · intro hx
+      simp only [Bool.and_eq_true] at hx
+      exact hx.1
+    · intro hmv hx
+      simp only [hmv, persistedNeedsSignerUnderVerify, beq_self_eq_true, Bool.and_self, Bool.not_true, Bool.false_or,
+        Bool.and_eq_true] at hx
+      exact hx.2
+    · intro hx; cases hx
+    · intro _ hx; cases hx
+  unfold newEntry
+  by_cases hd : s.cfg.disk = true
+  · simp only [hd, ↓reduceIte]
+    cases hl : lookup s.disk loc with
+    | none =>
+      simp only [Option.getD_none]
+      exact key {} (storeOK_empty k s loc)
+    | some st =>
+      simp only [Option.getD_some]
+      exact key st (h.2 (loc, st) (lookup_mem _ _ _ hl))
+  · simp only [hd, Bool.false_eq_true, ↓reduceIte]
+    exact key {} (storeOK_empty k s loc)
+
+theorem entryOK_hasLocs (k : Bool) (s : State) (loc : Loc) (e : Entry) (he : EntryOK k s loc e) :
+    EntryOK k s loc { e with store := { e.store with hasLocs := true } } :=
+  ⟨⟨he.store.accepted, he.store.signer, he.store.verified⟩, he.loadedDoc, he.verifySigner, he.failed, he.failedLoaded⟩
+
+/-- The signature-certificate retry of `AddCRL`: the candidates presented now verify the list whose verification failed at the
+last refresh; its signer certificate is stored with the entry's current store. -/
+theorem entryOK_retry (k : Bool) (s : State) (loc : Loc) (e : Entry) (d : DocA) (cands : List Signer)
+    (he : EntryOK k s loc e) (hsf : e.sigFailed = true) (hld : e.lastDoc = some d) (hv : verifies d cands = true) :
+    EntryOK k { setEntry s loc { e with sigFailed := false, store := { e.store with signer := some d.signer } } with
+        log := s.log ++ [⟨loc, d, cands, s.cfg.sigMode⟩] } loc
+      { e with sigFailed := false, store := { e.store with signer := some d.signer } } := by
+  have hl : ∀ a ∈ s.log, a ∈ ({ setEntry s loc { e with sigFailed := false, store := { e.store with signer := some d.signer } } with
+        log := s.log ++ [⟨loc, d, cands, s.cfg.sigMode⟩] } : State).log := fun a ha => by simp [ha]
+  have hnew : (⟨loc, d, cands, s.cfg.sigMode⟩ : Accept) ∈ ({ setEntry s loc { e with sigFailed := false, store := { e.store with signer := some d.signer } } with
+        log := s.log ++ [⟨loc, d, cands, s.cfg.sigMode⟩] } : State).log := by simp
+  refine ⟨⟨?_, ?_, ?_⟩, he.loadedDoc, fun _ _ => rfl, ?_, ?_⟩
+  · intro d' hd'
+    exact accepted_mono hl (he.store.accepted d' hd')
+  · intro sg hs
+    cases hs
+    exact ⟨_, hnew, rfl, rfl, hv⟩
+  · intro hk d' hd' _
+    rcases he.failed hsf with hmv | ⟨_, _, hsame⟩
+    · -- under `verify` the entry is loaded, so its store already carried a signer certificate
+      have hld' := he.failedLoaded hk hsf
+      exact verified_mono hl (he.store.verified hk d' hd' (he.verifySigner hmv hld'))
+    · -- under `verify_log` the store holds exactly the list whose verification failed
+      have := hsame d hld
+      have hdd : d' = d := by
+        have h2 : e.store.doc = some d' := hd'
+        rw [this] at h2; cases h2; rfl
+      subst hdd
+      exact ⟨_, hnew, rfl, rfl, hv⟩
+  · intro hx; cases hx
+  · intro _ hx; cases hx
+
+theorem inv_loadActively (k : Bool) (s : State) (loc : Loc) (e : Entry) (cands : List Signer) (h : Inv k s)
+    (he : EntryOK k s loc e) (hnl : e.loaded = false) : Inv k (loadActively s loc e cands).1 := by
+  unfold loadActively
+  by_cases hc : (e.closed && closedEntriesSkipped) = true
+  · simp only [hc, ↓reduceIte]; exact h
+  · simp only [hc, Bool.false_eq_true, ↓reduceIte]
+    have he3 := entryOK_hasLocs k s loc e he
+    exact inv_loadCRL k _ loc _ cands (inv_setEntry k s loc _ h he3)
+      (entryOK_mono (s := s) (s' := setEntry s loc _) rfl (fun a ha => ha) he3) hnl
+
+theorem inv_addCRL (k : Bool) (s : State) (loc : Loc) (cands : List Signer) (h : Inv k s) : Inv k (addCRL s loc cands).1 := by
+  unfold addCRL
+  by_cases hu : s.unsupported.contains loc = true
+  · simp only [hu, ↓reduceIte]; exact h
+  · simp only [hu, Bool.false_eq_true, ↓reduceIte]
+    -- the entry looked up or created, and the state after registering it
+    cases hl : lookup s.entries loc with
+    | some e =>
+      simp only
+      have he : EntryOK k s loc e := entryOK_of_mem k s h loc e hl
+      -- `added = false`: no location write
+      simp only [Bool.false_and, Bool.false_eq_true, ↓reduceIte]
+      by_cases hact : (s.cfg.fetch == FetchMode.actively && !e.loaded) = true
+      · simp only [hact, ↓reduceIte]
+        have hnl : e.loaded = false := by
+          simp only [Bool.and_eq_true, Bool.not_eq_true'] at hact
+          exact hact.2
+        exact inv_loadActively k s loc e cands h he hnl
+      · simp only [hact, Bool.false_eq_true, ↓reduceIte]
+        by_cases hsf : e.sigFailed = true
+        · simp only [hsf, ↓reduceIte]
+          cases hld : e.lastDoc with
+          | none => exact h
+          | some d =>
+            simp only
+            by_cases hv : verifies d cands = true
+            · simp only [hv, ↓reduceIte]
+              have hr := entryOK_retry k s loc e d cands he hsf hld hv
+              rw [hld] at hr
+              exact inv_setEntry_log k s loc _ _ h hr
+            · simp only [hv, Bool.false_eq_true, ↓reduceIte]; exact h
+        · simp only [hsf, Bool.false_eq_true, ↓reduceIte]; exact h
+    | none =>
+      simp only
+      have he : EntryOK k s loc (newEntry s loc cands) := entryOK_new k s h loc cands
+      have h1 : Inv k (setEntry s loc (newEntry s loc cands)) := inv_setEntry k s loc _ h he
+      have he1 : EntryOK k (setEntry s loc (newEntry s loc cands)) loc (newEntry s loc cands) :=
+        entryOK_mono (s := s) (s' := setEntry s loc _) rfl (fun a ha => ha) he
+      by_cases hst : (true && !(newEntry s loc cands).loaded && locationsStoredOnAdd) = true
+      · simp only [hst, ↓reduceIte]
+        have he1' := entryOK_hasLocs k _ loc _ he1
+        have h2 : Inv k (setEntry (setEntry s loc (newEntry s loc cands)) loc
+            { newEntry s loc cands with store := { (newEntry s loc cands).store with hasLocs := true } }) :=
+          inv_setEntry k _ loc _ h1 he1'
+        by_cases hact : ((setEntry (setEntry s loc (newEntry s loc cands)) loc
+            { newEntry s loc cands with store := { (newEntry s loc cands).store with hasLocs := true } }).cfg.fetch == FetchMode.actively &&
+            !(newEntry s loc cands).loaded) = true
+        · simp only [hact, ↓reduceIte]
+          have hnl : (newEntry s loc cands).loaded = false := by
+            simp only [Bool.and_eq_true, Bool.not_eq_true'] at hact
+            exact hact.2
+          have he2 := entryOK_mono (s := setEntry s loc (newEntry s loc cands))
+            (s' := setEntry (setEntry s loc (newEntry s loc cands)) loc
+              { newEntry s loc cands with store := { (newEntry s loc cands).store with hasLocs := true } })
+            rfl (fun a ha => ha) he1'
+          exact inv_loadActively k _ loc _ cands h2 he2 hnl
+        · simp only [hact, Bool.false_eq_true, ↓reduceIte]
+          -- a new entry never has sigFailed set
+          have : (newEntry s loc cands).sigFailed = false := rfl
+          simp only [this, Bool.false_eq_true, ↓reduceIte]
+          exact h2
+      · simp only [hst, Bool.false_eq_true, ↓reduceIte]
+        by_cases hact : ((setEntry s loc (newEntry s loc cands)).cfg.fetch == FetchMode.actively &&
+            !(newEntry s loc cands).loaded) = true
+        · simp only [hact, ↓reduceIte]
+          have hnl : (newEntry s loc cands).loaded = false := by
+            simp only [Bool.and_eq_true, Bool.not_eq_true'] at hact
+            exact hact.2
+          exact inv_loadActively k _ loc _ cands h1 he1 hnl
+        · simp only [hact, Bool.false_eq_true, ↓reduceIte]
+          have : (newEntry s loc cands).sigFailed = false := rfl
+          simp only [this, Bool.false_eq_true, ↓reduceIte]
+          exact h1
+
+end Crv.Repo
+
+namespace Crv.Repo
+open Crv Crv.Generated
+
+/-! ### With fetch mode `actively`, a successful `AddCRL` leaves a loaded entry -/
+
+theorem loadCRL_ok_loaded (s : State) (loc : Loc) (e : Entry) (cands : List Signer) (hok : (loadCRL s loc e cands).2 = .ok) :
+    ∀ e', lookup (loadCRL s loc e cands).1.entries loc = some e' → e'.loaded = true := by
+  unfold loadCRL at hok ⊢
+  by_cases hc : loadRefused s e = true
+  · simp only [hc, ↓reduceIte] at hok; cases hok
+  · simp only [hc, Bool.false_eq_true, ↓reduceIte] at hok ⊢
+    cases hst : stage s.cfg.sigMode firstLoadHonoursMode (servedAt s loc) cands with
+    | ok st d v =>
+      intro e' he'
+      simp only [setEntry] at he'
+      rw [lookup_upsert] at he'
+      cases he'
+      rfl
+    | fetchFail => rw [hst] at hok; cases hok
+    | parseFail => rw [hst] at hok; cases hok
+    | sigFail d => rw [hst] at hok; cases hok
+
+theorem loadActively_ok_loaded (s : State) (loc : Loc) (e : Entry) (cands : List Signer)
+    (hok : (loadActively s loc e cands).2 = .ok) :
+    ∀ e', lookup (loadActively s loc e cands).1.entries loc = some e' → e'.loaded = true := by
+  unfold loadActively at hok ⊢
+  by_cases hc : (e.closed && closedEntriesSkipped) = true
+  · simp only [hc, ↓reduceIte] at hok; cases hok
+  · simp only [hc, Bool.false_eq_true, ↓reduceIte] at hok ⊢
+    exact loadCRL_ok_loaded _ loc _ cands hok
+
+theorem addCRL_actively_loaded (s : State) (loc : Loc) (cands : List Signer) (hf : s.cfg.fetch = .actively)
+    (hok : (addCRL s loc cands).2.2 = .ok) :
+    ∀ e', lookup (addCRL s loc cands).1.entries loc = some e' → e'.loaded = true := by
+  unfold addCRL at hok ⊢
+  by_cases hu : s.unsupported.contains loc = true
+  · simp only [hu, ↓reduceIte] at hok; cases hok
+  · simp only [hu, Bool.false_eq_true, ↓reduceIte] at hok ⊢
+    cases hl : lookup s.entries loc with
+    | some e =>
+      simp only [hl, Bool.false_and, Bool.false_eq_true, ↓reduceIte] at hok ⊢
+      by_cases hact : (s.cfg.fetch == FetchMode.actively && !e.loaded) = true
+      · simp only [hact, ↓reduceIte] at hok ⊢
+        exact loadActively_ok_loaded s loc e cands hok
+      · simp only [hact, Bool.false_eq_true, ↓reduceIte]
+        have hld : e.loaded = true := by
+          simp only [hf, beq_self_eq_true, Bool.true_and, Bool.not_eq_true', Bool.not_eq_false] at hact
+          exact hact
+        by_cases hsf : e.sigFailed = true
+        · simp only [hsf, ↓reduceIte]
+          cases hlast : e.lastDoc with
+          | none => intro e' he'; simp only at he'; rw [hl] at he'; cases he'; exact hld
+          | some d =>
+            simp only
+            by_cases hv : verifies d cands = true
+            · simp only [hv, ↓reduceIte]
+              intro e' he'
+              simp only [setEntry] at he'
+              rw [lookup_upsert] at he'
+              cases he'
+              exact hld
+            · simp only [hv, Bool.false_eq_true, ↓reduceIte]
+              intro e' he'; rw [hl] at he'; cases he'; exact hld
+        · simp only [hsf, Bool.false_eq_true, ↓reduceIte]
+          intro e' he'; rw [hl] at he'; cases he'; exact hld
+    | none =>
+      simp only [hl] at hok ⊢
+      have hnf : (newEntry s loc cands).sigFailed = false := rfl
+      by_cases hst : (true && !(newEntry s loc cands).loaded && locationsStoredOnAdd) = true
+      · simp only [hst, ↓reduceIte] at hok ⊢
+        by_cases hact : ((setEntry (setEntry s loc (newEntry s loc cands)) loc
+            { newEntry s loc cands with store := { (newEntry s loc cands).store with hasLocs := true } }).cfg.fetch == FetchMode.actively &&
+            !(newEntry s loc cands).loaded) = true
+        · simp only [hact, ↓reduceIte] at hok ⊢
+          exact loadActively_ok_loaded _ loc _ cands hok
+        · exfalso
+          simp only [setEntry_cfg, hf, beq_self_eq_true, Bool.true_and, Bool.not_eq_true', Bool.not_eq_false] at hact
+          simp [hact] at hst
+      · simp only [hst, Bool.false_eq_true, ↓reduceIte] at hok ⊢
+        by_cases hact : ((setEntry s loc (newEntry s loc cands)).cfg.fetch == FetchMode.actively &&
+            !(newEntry s loc cands).loaded) = true
+        · simp only [hact, ↓reduceIte] at hok ⊢
+          exact loadActively_ok_loaded _ loc _ cands hok
+        · simp only [hact, Bool.false_eq_true, ↓reduceIte, hnf]
+          have hld : (newEntry s loc cands).loaded = true := by
+            simp only [setEntry_cfg, hf, beq_self_eq_true, Bool.true_and, Bool.not_eq_true', Bool.not_eq_false] at hact
+            exact hact
+          intro e' he'
+          simp only [setEntry] at he'
+          rw [lookup_upsert] at he'
+          cases he'
+          exact hld
+
+end Crv.Repo
+
+namespace Crv.Repo
+open Crv Crv.Generated
+
+theorem inv_updateOne (k : Bool) (s : State) (loc : Loc) (h : Inv k s) : Inv k (updateOne s loc) := by
+  unfold updateOne
+  cases hl : lookup s.entries loc with
+  | none => exact h
+  | some e =>
+    simp only
+    have he := entryOK_of_mem k s h loc e hl
+    by_cases hcl : (e.closed && closedEntriesSkipped) = true
+    · simp only [hcl, ↓reduceIte]; exact h
+    · simp only [hcl, Bool.false_eq_true, ↓reduceIte]
+      by_cases hld : (!e.loaded) = true
+      · simp only [hld, ↓reduceIte]
+        exact inv_loadCRL k s loc e _ h he (by simpa using hld)
+      · simp only [hld, Bool.false_eq_true, ↓reduceIte]
+        exact inv_updateCrlEntry k s loc e none h he (fun _ => Or.inl (by simpa using hld))
+
+theorem inv_updateAll (k : Bool) (order : List Loc) : ∀ s, Inv k s → Inv k (updateAll s order) := by
+  induction order with
+  | nil => intro s h; exact h
+  | cons l t ih => intro s h; exact ih _ (inv_updateOne k s l h)
+
+/-- Provisioning of one configured CRL: `AddCRL`, then `UpdateCRL` — a refresh whatever the loaded flag. With `k = true`:
+under fetch mode `actively` (the entry is loaded after a successful `AddCRL`) or while the mode is not `verify`. -/
+theorem inv_provisionOne (k : Bool) (s : State) (loc : Loc) (trusted : List Signer) (h : Inv k s)
+    (hk : k = true → s.cfg.fetch = .actively ∨ s.cfg.sigMode ≠ .verify) : Inv k (provisionOne s loc trusted).1 := by
+  unfold provisionOne
+  have h1 := inv_addCRL k s loc trusted h
+  have hc := addCRL_cfg s loc trusted
+  have hal := addCRL_actively_loaded s loc trusted
+  cases hadd : addCRL s loc trusted with
+  | mk s1 rest =>
+    obtain ⟨added, o1⟩ := rest
+    rw [hadd] at h1 hc hal
+    simp only at h1 hc hal ⊢
+    by_cases ho : (o1 == Outcome.err) = true
+    · simp only [ho, ↓reduceIte]; exact h1
+    · simp only [ho, Bool.false_eq_true, ↓reduceIte]
+      cases hl : lookup s1.entries loc with
+      | none => exact h1
+      | some e =>
+        refine inv_updateCrlEntry k s1 loc e _ h1 (entryOK_of_mem k s1 h1 loc e hl) ?_
+        intro hk'
+        rcases hk hk' with hf | hm
+        · left
+          have hok : o1 = .ok := by
+            cases o1 with
+            | ok => rfl
+            | err => simp at ho
+          exact hal hf hok e hl
+        · right; rw [hc]; exact hm
+
+theorem inv_handshake (k : Bool) (s : State) (c : Cert) (cands : List Signer) (h : Inv k s) : Inv k (handshake s c cands).1 := by
+  unfold handshake
+  cases hc : c.cdp with
+  | none => exact h
+  | some loc =>
+    simp only
+    have h1 := inv_addCRL k s loc cands h
+    cases hadd : addCRL s loc cands with
+    | mk s1 rest =>
+      obtain ⟨added, o⟩ := rest
+      rw [hadd] at h1
+      exact h1
+
+/-- A restart drops the entries; what is on disk stays as it was taken in (whatever the mode afterwards). -/
+theorem inv_drop (k : Bool) (s s' : State) (hl : ∀ a ∈ s.log, a ∈ s'.log) (he : s'.entries = [])
+    (hd : ∀ p ∈ s'.disk, p ∈ s.disk) (h : Inv k s) : Inv k s' := by
+  refine ⟨?_, ?_⟩
+  · intro p hp; rw [he] at hp; cases hp
+  · intro p hp; exact storeOK_mono hl (h.2 p (hd p hp))
+
+theorem inv_restart (k : Bool) (s : State) (h : Inv k s) : Inv k (restart s) :=
+  inv_drop k s (restart s) (fun _ ha => ha) rfl (fun _ hp => hp) h
+
+/-- Restart with another signature mode: the entries are gone, what is on disk stays as it was taken in. -/
+theorem inv_reconfigure (k : Bool) (s : State) (m : SigMode) (h : Inv k s) : Inv k (reconfigure s m) :=
+  inv_drop k s (reconfigure s m) (fun _ ha => ha) rfl (fun _ hp => hp) h
+
+theorem entryOK_closed (k : Bool) (s s' : State) (hm : s'.cfg.sigMode = s.cfg.sigMode) (hl : ∀ a ∈ s.log, a ∈ s'.log)
+    (loc : Loc) (e : Entry) (he : EntryOK k s loc e) : EntryOK k s' loc { e with closed := true } :=
+  have h := entryOK_mono (s := s) (s' := s') hm hl he
+  ⟨⟨h.store.accepted, h.store.signer, h.store.verified⟩, h.loadedDoc, h.verifySigner, h.failed, h.failedLoaded⟩
+
+theorem inv_close (k : Bool) (s : State) (h : Inv k s) : Inv k (close s) := by
+  unfold close
+  by_cases hc : closeMarksEntries = true
+  · simp only [hc, ↓reduceIte]
+    refine inv_of k s _ rfl (fun _ ha => ha) ?_ (fun _ hp => Or.inl hp) h
+    intro p hp
+    simp only [List.mem_map] at hp
+    obtain ⟨q, hq, rfl⟩ := hp
+    refine Or.inr ?_
+    apply entryOK_closed k s
+    · rfl
+    · exact fun _ ha => ha
+    · exact h.1 q hq
+  · simp only [hc, Bool.false_eq_true, ↓reduceIte]
+    exact inv_drop k s _ (fun _ ha => ha) rfl (fun _ hp => hp) h
+
+theorem inv_serve (k : Bool) (s : State) (loc : Loc) (sv : Served) (h : Inv k s) : Inv k (serve s loc sv) :=
+  inv_of k s (serve s loc sv) rfl (fun _ ha => ha) (fun _ hp => Or.inl hp) (fun _ hp => Or.inl hp) h
+
+/-- The operations of a history. -/
+inductive Op
+  | serve (loc : Loc) (sv : Served)
+  | handshake (c : Cert) (cands : List Signer)
+  | tick (order : List Loc)              -- `UpdateCRLs` over the identifiers in some enumeration order
+  | provision (loc : Loc) (trusted : List Signer)
+  | restart
+  | reconfigure (m : SigMode)            -- restart with another `signature_validation_mode` in the configuration
+  | close
+  | markUnsupported (loc : Loc)
+
+def Op.isProvision : Op → Bool
+  | .provision _ _ => true
+  | _ => false
+
+def step (s : State) : Op → State
+  | .serve loc sv => serve s loc sv
+  | .handshake c cands => (handshake s c cands).1
+  | .tick order => updateAll s order
+  | .provision loc trusted => (provisionOne s loc trusted).1
+  | .restart => restart s
+  | .reconfigure m => reconfigure s m
+  | .close => close s
+  | .markUnsupported loc => { s with unsupported := loc :: s.unsupported }
+
+def run (cfg : Cfg) (ops : List Op) : State := ops.foldl step { cfg := cfg }
+
+theorem run_append (cfg : Cfg) (pre suf : List Op) : run cfg (pre ++ suf) = suf.foldl step (run cfg pre) := by
+  unfold run; rw [List.foldl_append]
+
+/-! ### Configuration along a run -/
+
+/-- The mode after a history: the mode of the last `reconfigure`, or the initial one. -/
+def modeAfter (m : SigMode) (ops : List Op) : SigMode :=
+  ops.foldl (fun m op => match op with | .reconfigure m' => m' | _ => m) m
+
+theorem cfg_step (s : State) (op : Op) :
+    (step s op).cfg = match op with | .reconfigure m => { s.cfg with sigMode := m } | _ => s.cfg := by
+  cases op with
+  | serve loc sv => rfl
+  | handshake c cands => exact handshake_cfg s c cands
+  | tick order => exact updateAll_cfg order s
+  | provision loc trusted => exact provisionOne_cfg s loc trusted
+  | restart => rfl
+  | reconfigure m => rfl
+  | close => exact close_cfg s
+  | markUnsupported loc => rfl
+
+/-- No step but `reconfigure` changes the configuration. -/
+theorem cfg_step_of_not_reconfigure (s : State) (op : Op) (h : ∀ m, op ≠ .reconfigure m) : (step s op).cfg = s.cfg := by
+  have := cfg_step s op
+  cases op with
+  | reconfigure m => exact absurd rfl (h m)
+  | _ => exact this
+
+theorem cfg_foldl (ops : List Op) : ∀ s : State,
+    (ops.foldl step s).cfg = { s.cfg with sigMode := modeAfter s.cfg.sigMode ops } := by
+  induction ops with
+  | nil => intro s; rfl
+  | cons o t ih =>
+    intro s
+    rw [List.foldl_cons, ih, cfg_step]
+    cases o <;> rfl
+
+/-- **The configuration along a run** (replaces "the configuration never changes"): every field but the signature mode is
+the initial one; the signature mode is the one of the last `reconfigure`, or the initial one. -/
+theorem cfg_run (cfg : Cfg) (ops : List Op) : (run cfg ops).cfg = { cfg with sigMode := modeAfter cfg.sigMode ops } :=
+  cfg_foldl ops _
+
+theorem fetch_run (cfg : Cfg) (ops : List Op) : (run cfg ops).cfg.fetch = cfg.fetch := by rw [cfg_run]
+theorem strict_run (cfg : Cfg) (ops : List Op) : (run cfg ops).cfg.strict = cfg.strict := by rw [cfg_run]
+theorem disk_run (cfg : Cfg) (ops : List Op) : (run cfg ops).cfg.disk = cfg.disk := by rw [cfg_run]
+theorem sigMode_run (cfg : Cfg) (ops : List Op) : (run cfg ops).cfg.sigMode = modeAfter cfg.sigMode ops := by rw [cfg_run]
+
+theorem modeAfter_of_no_reconfigure (m : SigMode) (ops : List Op) (h : ∀ op ∈ ops, ∀ m', op ≠ .reconfigure m') :
+    modeAfter m ops = m := by
+  induction ops generalizing m with
+  | nil => rfl
+  | cons o t ih =>
+    have ho := h o List.mem_cons_self
+    have ht : ∀ op ∈ t, ∀ m', op ≠ .reconfigure m' := fun op hop => h op (List.mem_cons_of_mem _ hop)
+    unfold modeAfter
+    rw [List.foldl_cons]
+    cases o with
+    | reconfigure m' => exact absurd rfl (ho m')
+    | _ => exact ih _ ht
+
+/-- Histories without `reconfigure` (the old history type): the configuration never changes. -/
+theorem cfg_run_of_no_reconfigure (cfg : Cfg) (ops : List Op) (h : ∀ op ∈ ops, ∀ m', op ≠ .reconfigure m') :
+    (run cfg ops).cfg = cfg := by
+  rw [cfg_run, modeAfter_of_no_reconfigure _ _ h]
+
+theorem modeAfter_append_reconfigure (m0 : SigMode) (pre : List Op) (m : SigMode) (suf : List Op)
+    (h : ∀ op ∈ suf, ∀ m', op ≠ .reconfigure m') : modeAfter m0 (pre ++ .reconfigure m :: suf) = m := by
+  unfold modeAfter
+  rw [List.foldl_append, List.foldl_cons]
+  exact modeAfter_of_no_reconfigure m suf h
+
+end Crv.Repo
+
+namespace Crv.Repo
+open Crv Crv.Generated
+
+/-! ### The invariant along every history -/
+
+theorem inv_step (k : Bool) (s : State) (op : Op) (h : Inv k s)
+    (hk : k = true → s.cfg.fetch = .actively ∨ op.isProvision = false ∨ s.cfg.sigMode ≠ .verify) : Inv k (step s op) := by
+  cases op with
+  | serve loc sv => exact inv_serve k s loc sv h
+  | handshake c cands => exact inv_handshake k s c cands h
+  | tick order => exact inv_updateAll k order s h
+  | provision loc trusted =>
+    refine inv_provisionOne k s loc trusted h ?_
+    intro hk'
+    rcases hk hk' with h1 | h1 | h1
+    · exact Or.inl h1
+    · cases h1
+    · exact Or.inr h1
+  | restart => exact inv_restart k s h
+  | reconfigure m => exact inv_reconfigure k s m h
+  | close => exact inv_close k s h
+  | markUnsupported loc =>
+    exact inv_of k s _ rfl (fun _ ha => ha) (fun _ hp => Or.inl hp) (fun _ hp => Or.inl hp) h
+
+theorem inv_init (k : Bool) (cfg : Cfg) : Inv k { cfg := cfg } :=
+  ⟨(fun p hp => by cases hp), (fun p hp => by cases hp)⟩
+
+/-- Every provisioning step of the history happens under fetch mode `actively` or while the signature mode is not `verify`.
+(The one step that breaks the strong invariant is the refresh half of provisioning on a *not loaded* entry under
+`verify` — only reachable with fetch mode `background`; see `Crv.Props.C16.background_provision_counterexample`.) -/
+def ProvisionsSafe (cfg : Cfg) (ops : List Op) : Prop :=
+  cfg.fetch = .actively ∨
+    ∀ pre loc trusted suf, ops = pre ++ Op.provision loc trusted :: suf → (run cfg pre).cfg.sigMode ≠ .verify
+
+theorem provisionsSafe_of_actively (cfg : Cfg) (ops : List Op) (h : cfg.fetch = .actively) : ProvisionsSafe cfg ops := Or.inl h
+
+theorem provisionsSafe_of_no_provision (cfg : Cfg) (ops : List Op) (h : ∀ op ∈ ops, op.isProvision = false) :
+    ProvisionsSafe cfg ops := by
+  refine Or.inr ?_
+  intro pre loc trusted suf heq
+  have := h (Op.provision loc trusted) (by rw [heq]; simp)
+  cases this
+
+theorem fetch_step (s : State) (op : Op) : (step s op).cfg.fetch = s.cfg.fetch := by
+  rw [cfg_step]; cases op <;> rfl
+
+theorem inv_foldl (k : Bool) (ops : List Op) : ∀ s, Inv k s →
+    (k = true → s.cfg.fetch = .actively ∨
+      ∀ pre loc trusted suf, ops = pre ++ Op.provision loc trusted :: suf → (pre.foldl step s).cfg.sigMode ≠ .verify) →
+    Inv k (ops.foldl step s) := by
+  induction ops with
+  | nil => intro s h _; exact h
+  | cons o t ih =>
+    intro s h hk
+    rw [List.foldl_cons]
+    apply ih
+    · apply inv_step k s o h
+      intro hk'
+      rcases hk hk' with h1 | h1
+      · exact Or.inl h1
+      · cases o with
+        | provision loc trusted => exact Or.inr (Or.inr (h1 [] loc trusted t rfl))
+        | _ => exact Or.inr (Or.inl rfl)
+    · intro hk'
+      rcases hk hk' with h1 | h1
+      · exact Or.inl (by rw [fetch_step]; exact h1)
+      · refine Or.inr ?_
+        intro pre loc trusted suf heq
+        have := h1 (o :: pre) loc trusted suf (by rw [heq]; rfl)
+        simpa [List.foldl_cons] using this
+
+/-- Every state reachable by any history satisfies the (general) invariant. -/
+theorem inv_run (cfg : Cfg) (ops : List Op) : Inv false (run cfg ops) :=
+  inv_foldl false ops _ (inv_init false cfg) (fun h => by cases h)
+
+/-- Along histories whose provisioning steps are safe, the strong invariant holds too. -/
+theorem inv_run_safe (cfg : Cfg) (ops : List Op) (h : ProvisionsSafe cfg ops) : Inv true (run cfg ops) :=
+  inv_foldl true ops _ (inv_init true cfg) (fun _ => h)
+
+/-! ### The ghost log along a run: it only grows, and every record carries the mode configured at its intake -/
+
+theorem log_step (s : State) (op : Op) :
+    (∀ a ∈ s.log, a ∈ (step s op).log) ∧ (∀ a ∈ (step s op).log, a ∈ s.log ∨ a.mode = s.cfg.sigMode) := by
+  have key : ∀ s' : State, Ext s s' → (∀ a ∈ s.log, a ∈ s'.log) ∧ (∀ a ∈ s'.log, a ∈ s.log ∨ a.mode = s.cfg.sigMode) :=
+    fun s' h => ⟨h.mono, h.fresh⟩
+  cases op with
+  | serve loc sv => exact ⟨fun _ h => h, fun _ h => Or.inl h⟩
+  | handshake c cands => exact key _ (ext_handshake s c cands)
+  | tick order => exact key _ (ext_updateAll order s)
+  | provision loc trusted => exact key _ (ext_provisionOne s loc trusted)
+  | restart => exact ⟨fun _ h => h, fun _ h => Or.inl h⟩
+  | reconfigure m => exact ⟨fun _ h => h, fun _ h => Or.inl h⟩
+  | close => exact key _ (ext_close s)
+  | markUnsupported loc => exact ⟨fun _ h => h, fun _ h => Or.inl h⟩
+
+theorem log_foldl_mono (ops : List Op) : ∀ s : State, ∀ a ∈ s.log, a ∈ (ops.foldl step s).log := by
+  induction ops with
+  | nil => intro s a h; exact h
+  | cons o t ih => intro s a h; exact ih _ a ((log_step s o).1 a h)
+
+/-- The log only grows: an acceptance recorded after a prefix of the history is still recorded at its end. -/
+theorem log_run_mono (cfg : Cfg) (pre suf : List Op) : ∀ a ∈ (run cfg pre).log, a ∈ (run cfg (pre ++ suf)).log := by
+  rw [run_append]; exact log_foldl_mono suf _
+
+theorem log_foldl_mode (ops : List Op) : ∀ s : State, ∀ a ∈ (ops.foldl step s).log,
+    a ∈ s.log ∨ ∃ pre suf, ops = pre ++ suf ∧ (pre.foldl step s).cfg.sigMode = a.mode := by
+  induction ops with
+  | nil => intro s a h; exact Or.inl h
+  | cons o t ih =>
+    intro s a h
+    rcases ih _ a h with h1 | ⟨pre, suf, heq, hm⟩
+    · rcases (log_step s o).2 a h1 with h2 | h2
+      · exact Or.inl h2
+      · exact Or.inr ⟨[], o :: t, rfl, h2.symm⟩
+    · exact Or.inr ⟨o :: pre, suf, by rw [heq]; rfl, hm⟩
+
+/-- **Mode at the time of intake:** the mode a log record carries is the mode that was configured when it was written —
+the mode of the run after some prefix of the history. -/
+theorem log_mode_at_intake (cfg : Cfg) (ops : List Op) : ∀ a ∈ (run cfg ops).log,
+    ∃ pre suf, ops = pre ++ suf ∧ (run cfg pre).cfg.sigMode = a.mode := by
+  intro a h
+  rcases log_foldl_mode ops _ a h with h1 | h1
+  · cases h1
+  · exact h1
+
+/-- `Accepted`, spelled out over the history: the document was taken in at `loc` after some prefix of the history,
+acceptable under the mode configured then, against the candidates of that intake. -/
+theorem accepted_at_intake (cfg : Cfg) (ops : List Op) (loc : Loc) (d : DocA) (h : Accepted (run cfg ops) loc d) :
+    ∃ pre suf cands, ops = pre ++ suf ∧ acceptable (run cfg pre).cfg.sigMode d cands = true := by
+  obtain ⟨a, ha, _, _, hacc⟩ := h
+  obtain ⟨pre, suf, heq, hm⟩ := log_mode_at_intake cfg ops a ha
+  exact ⟨pre, suf, a.cands, heq, by rw [hm]; exact hacc⟩
+
+end Crv.Repo
+
+namespace Crv.Repo
+
+/-- `inForce` as a computation (for `decide` on concrete histories). -/
+def inForceB (s : State) (loc : Loc) (d : DocA) : Bool :=
+  s.entries.any (fun p => p.1 == loc && p.2.loaded && !p.2.closed && p.2.store.doc == some d)
+
+theorem inForce_iff (s : State) (loc : Loc) (d : DocA) : inForce s loc d ↔ inForceB s loc d = true := by
+  unfold inForce inForceB
+  rw [List.any_eq_true]
+  constructor
+  · rintro ⟨e, hmem, hl, hc, hd⟩
+    exact ⟨(loc, e), hmem, by simp [hl, hc, hd]⟩
+  · rintro ⟨⟨l, e⟩, hmem, hp⟩
+    simp only [Bool.and_eq_true, beq_iff_eq, Bool.not_eq_true'] at hp
+    obtain ⟨⟨⟨rfl, hl⟩, hc⟩, hd⟩ := hp
+    exact ⟨e, hmem, hl, hc, hd⟩
+
+instance (s : State) (loc : Loc) (d : DocA) : Decidable (inForce s loc d) :=
+  decidable_of_iff _ (inForce_iff s loc d).symm
 
 end Crv.Repo
